@@ -82,7 +82,7 @@ func deepEqTerm(a, b value, depth int) *sym.Term {
 			if bx == by {
 				return sym.True
 			}
-			if !types.Identical(bx.t, by.t) {
+			if !types.Identical(bx.t, by.t) || bx.enc != by.enc {
 				return sym.False
 			}
 			return deepEqTerm(bx.v, by.v, depth+1)
@@ -182,7 +182,7 @@ func deepEqTerm(a, b value, depth int) *sym.Term {
 // rendered content (injective up to rendering).
 func hashBytes(in []value) [32]byte {
 	if b := blobOf(in); b != nil {
-		return sha256.Sum256([]byte("blob:" + renderDeep(b.v)))
+		return sha256.Sum256([]byte(fmt.Sprintf("blob/%d:", b.enc) + renderDeep(b.v)))
 	}
 	if s := sigOf(in); s != nil {
 		return sha256.Sum256([]byte("sig:" + s.pub + renderVal(s.msg)))
